@@ -12,6 +12,9 @@ CLAIMED = {
  "C01": ("guard-dominance (edge-removal reachability on SSA CFG) + who-may-call over the resolved program",
          "Decides that on every path of the commit functions and of the block-sync processor a block is saved/applied only behind the +2/3-precommit, hash/parts match, validation and verifyCommit guards, and that nothing else can reach ApplyBlock/SaveBlock; universal over executions of those functions, but says nothing about cross-node histories.",
          "DESIGN.md §4 C01"),
+ "C02": ("algebraic normal form of every comparison against TotalVotingPower() + guard-dominance on tally/majority stores + key-covers-equality field sets",
+         "Decides that every quorum comparison in the module has the strict >2/3 form, that power is tallied once per validator and only after verification, that maj23 is set only on the crossing, that VerifyCommit/MakeCommit obey their guards, and that the tally map key covers block-id equality; universal over executions of these functions, not a proof about vote histories.",
+         "DESIGN.md §4 C02"),
  "C03": ("guard-dominance + typestate constants + once-per-path ordering + who-may-sign call-site sets",
          "Decides, for every path through the consensus step functions, that signing happens only from the state machine, at most once per step, behind the step guards, the polka guard and the lock guard, and that validateBlock is a complete checklist; does not decide what the vote sets contain at run time.",
          "DESIGN.md §4 C03"),
